@@ -16,6 +16,8 @@ import traceback
 
 HERE = os.path.dirname(os.path.dirname(os.path.abspath(__file__)))
 REPO = os.environ.get("ASYNQ_VERIF_REPO", "/repo")
+# dev only: seeded sweeps on scratch copies write their evidence/replay files elsewhere
+OUT = os.environ.get("ASYNQ_VERIF_OUT") or None
 
 
 def load_known():
@@ -143,7 +145,7 @@ def run_property(pid, tier="quick", seed=0, replay_only=None):
 
     # replay
     out_lines = []
-    rdir = os.path.join(HERE, "replay_out", pid)
+    rdir = os.path.join(OUT or HERE, "replay_out", pid)
     os.makedirs(rdir, exist_ok=True)
     viol_count = 0
     replay_cache = {}
@@ -227,7 +229,19 @@ def run_property(pid, tier="quick", seed=0, replay_only=None):
     trusted = []
     for q in quals:
         pass
-    used_trusted = sorted({n for n, c in reg.contracts.items() if c.trusted})
+    applied = set()
+    for r in results:
+        applied.update(r.get("callees") or ())
+    # contracts applied at some call site of the functions of this property and not themselves
+    # discharged here: trusted/environment contracts, and contracts of real functions proved under
+    # another property (or nowhere: then they are assumptions of this result)
+    used_trusted = sorted(n for n in applied if n in reg.contracts and reg.contracts[n].trusted)
+    import props as _props
+    proved_anywhere = set()
+    for _p in _props.PROPERTIES.values():
+        proved_anywhere.update(_p.get("functions", ()))
+    assumed_unproved = sorted(n for n in applied if n in reg.contracts and not reg.contracts[n].trusted
+                              and n not in proved_anywhere and n.split("!")[0] not in proved_anywhere)
     ev = {
         "property_id": pid, "tier": tier, "seed": int(seed), "level": "proof",
         "coverage": {
@@ -235,7 +249,9 @@ def run_property(pid, tier="quick", seed=0, replay_only=None):
             "checker_cmd": "python3-vt -m pyvc.check %s --tier %s  (z3 %s via python API; cvc5 on z3-unknowns%s)" % (
                 pid, tier, _z3v(), "; every query on both back ends" if both else ""),
             "trusted_base": ["pyvc VC generator (lowering, symbolic executor, theory encoding)", "z3 5.1 / cvc5",
-                             "environment contracts: " + ", ".join(used_trusted[:60])],
+                             "trusted/environment contracts applied at call sites: " + (", ".join(used_trusted) or "none")] +
+                            (["contracts of real functions applied but discharged under no property (assumed): " + ", ".join(assumed_unproved)]
+                             if assumed_unproved else []),
             "functions_under_contract": quals,
             "source_sha256": hashes,
             "path_instances": sum(a["instances"] for a in agg.values()),
@@ -256,8 +272,8 @@ def run_property(pid, tier="quick", seed=0, replay_only=None):
         "wall_s": round(time.time() - t0, 2),
         "violations": viol_count,
     }
-    os.makedirs(os.path.join(HERE, "evidence"), exist_ok=True)
-    json.dump(ev, open(os.path.join(HERE, "evidence", pid + ".json"), "w"), indent=1, default=str)
+    os.makedirs(os.path.join(OUT or HERE, "evidence"), exist_ok=True)
+    json.dump(ev, open(os.path.join(OUT or HERE, "evidence", pid + ".json"), "w"), indent=1, default=str)
 
     print("%s [%s]: %d/%d obligations discharged (%d path instances, %d functions, %.1fs solver, %.1fs wall)" % (
         pid, tier, n_dis, n_obl, ev["coverage"]["path_instances"], len(quals), solver_s, ev["wall_s"]))
